@@ -20,21 +20,33 @@ def rne (n : Int) (k : Nat) : Int :=
   else if 2 * r > d then q + 1
   else if q % 2 = 0 then q else q + 1
 
+/-- fields of an IEEE single given by its bit pattern -/
+def fsign (bits : Nat) : Nat := bits / 2147483648 % 2
+def fexp (bits : Nat) : Nat := bits / 8388608 % 256
+def fman (bits : Nat) : Nat := bits % 8388608
+/-- significand with the implicit bit; the value is `fmant · 2^(E-150)`, `E = max(fexp,1)` -/
+def fmant (bits : Nat) : Int := if fexp bits = 0 then fman bits else fman bits + 8388608
+/-- `x · 2^shift = fmant · 2^(fpow - 150)` -/
+def fpow (bits shift : Nat) : Nat := (if fexp bits = 0 then 1 else fexp bits) + shift
+
+/-- |x·2^shift| rounded to nearest even -/
+def magnitude (bits shift : Nat) : Int :=
+  if 150 ≤ fpow bits shift then fmant bits * 2 ^ (fpow bits shift - 150)
+  else rne (fmant bits) (150 - fpow bits shift)
+
+def signedMag (bits shift : Nat) : Int :=
+  if fsign bits = 1 then -(magnitude bits shift) else magnitude bits shift
+
+/-- what the conversion instruction plus the `fix:` saturation does with an out-of-range value -/
+def saturate (v : Int) : Int := if v ≥ INT_MAX then INT_MAX else if v < INT_MIN then INT_MIN else v
+
 /-- `vorbis_ftoi(x * 2^shift)` for the single-precision number with bit pattern `bits`
     (after the `fix:` that saturates positive overflow). `shift` is 15 (16 bit) or 7 (8 bit). -/
 def ftoiScaled (bits : Nat) (shift : Nat) : Int :=
-  let s := bits / 2147483648 % 2
-  let e := bits / 8388608 % 256
-  let m := bits % 8388608
-  if e = 255 then
-    if m ≠ 0 then INT_MIN                      -- NaN: "integer indefinite"
-    else if s = 0 then INT_MAX else INT_MIN    -- ±inf
-  else
-    let mant : Int := if e = 0 then m else m + 8388608
-    let p := (if e = 0 then 1 else e) + shift   -- value·2^shift = mant · 2^(p-150)
-    let mag : Int := if 150 ≤ p then mant * 2 ^ (p - 150) else rne mant (150 - p)
-    let v : Int := if s = 1 then -mag else mag
-    if v ≥ INT_MAX then INT_MAX else if v < INT_MIN then INT_MIN else v
+  if fexp bits = 255 then
+    if fman bits ≠ 0 then INT_MIN                        -- NaN: "integer indefinite"
+    else if fsign bits = 0 then INT_MAX else INT_MIN     -- ±inf
+  else saturate (signedMag bits shift)
 
 def clip (lo hi v : Int) : Int := if v > hi then hi else if v < lo then lo else v
 
